@@ -39,7 +39,7 @@ RULE = ("fn 4 setup: one logical channel is created against a peer that answers 
         "channels on the connection, 0 or 2 packages left in the queue; the transport holds every Write of a CLOSE-type packet for that id until every closer is parked in such a write or has "
         "returned (whoever gets as far as the teardown is in the window between the first closed check and the exclusive lock while all others run), then lets the packets go; mode 0: all closers are "
         "released into their calls together, mode 1: one after the other; GOMAXPROCS 1/4/16. Output: closers parked in the teardown write at release, sorted result codes, teardown packets seen and their "
-        "numbers, id unregistered, calls on the channel report closed, the other channels still deliver, Conn.Close returns, reader ended (40 cases quick, all 40 again under -race; thorough x10). Quick: 800 routing + 400 sending cases, 242 concurrent histories + 132 under -race; thorough: 8000 + 4000, 4840 + 1320. A seed reproduces the generator choices, not the schedule. Non-trivial = input longer than 60 characters; distinct by (fn, input).")
+        "numbers, id unregistered, calls on the channel report closed, the other channels still deliver, Conn.Close returns, reader ended (60 cases quick, all 60 again under -race; thorough x10). Quick: 800 routing + 400 sending cases, 242 concurrent histories + 132 under -race, 60 + 60 concurrent-close cases; thorough: 8000 + 4000, 4840 + 1320. A seed reproduces the generator choices, not the schedule. Non-trivial = input longer than 60 characters; distinct by (fn, input).")
 TRUSTED = ["Coq 8.16.1 kernel + vm_compute (no native_compute)",
            "hand-written models coq/theories/C12/Model.v (routing, allocation steps, multiplexed sending, setup), coq/theories/C13/Closers.v (n closers of one channel) over Rx/Model.v (receive path of one channel) and "
            "C01/Model.v + C15/Model.v (send path, packet queue), tied to the code by this correspondence and by those of C01/C02/C03/C11/C15",
